@@ -3,6 +3,7 @@ module_ir.py, with exactly the error codes error_examples defines."""
 from __future__ import annotations
 
 import ast
+import re
 
 from .. import grammar as G
 from ..pyfacts import walk_no_nested_funcs
@@ -319,3 +320,52 @@ def control_iso(repo, cp, ir):
     errs = []
     compare_tables(ref, p["goto"], act, lambda k, m: errs.append(k), "control")
     return bool(errs)
+
+
+def docexamples(repo, cp=None):
+    """R-DOCEXAMPLES (C09): "the language the shipped parser accepts is the language the documentation publishes" also
+    holds for the examples of the user documentation.  Every fenced block (no language tag, or `emb`) of the user
+    documents that is a whole module fragment -- after comments, documentation, attributes and imports its first line
+    opens a `struct`, `enum`, `bits` or `external` at column 0, and every other line is indented or opens another
+    definition -- is tokenised with the tokenizer's own tables and run through the shipped LR(1) tables by the
+    checker's automaton (nothing of the repository is executed); it must be accepted.  `enum Baud: B300 = 300`
+    (a BadWord by the documented name rule) and `[(cpp) namespace = "example"]` were published as valid Emboss."""
+    res = RuleResult("R-DOCEXAMPLES")
+    cp = cp or G.CachedParser(repo)
+    lits, regs = G.tokenizer_tables(repo)
+    p = cp.parsers["module_parser"]
+    goto, act = p["goto"], p["action"]
+    docs = ("doc/language-reference.md", "doc/guide.md", "doc/cpp-guide.md", "doc/cpp-reference.md", "doc/text-format.md", "README.md")
+    opener = ("struct ", "enum ", "bits ", "external ")
+    for doc in docs:
+        try:
+            text = repo.read(doc)
+        except OSError:
+            raise AnalysisError(f"{doc} is missing")
+        for m in re.finditer(r"^```(\w*)\n(.*?)^```", text, re.S | re.M):
+            lang, body = m.group(1), m.group(2)
+            if lang not in ("", "emb"):
+                continue
+            content = [ln for ln in body.split("\n") if ln.strip()]
+            core = [ln for ln in content if not ln.strip().startswith(("#", "--", "[", "import "))]
+            if not core or not core[0].startswith(opener):
+                continue
+            if any(not ln.startswith((" ",) + opener + ("#", "[", "import ", "--")) for ln in content):
+                continue
+            line = text[:m.start()].count("\n") + 1
+            res.instances += 1
+            key = f"{doc}|{core[0].strip()[:40]}"
+            try:
+                toks = toksim.tokenize(body, lits, regs)
+            except toksim.TokErr as e:
+                res.add(key + "|tokenize", f"{doc}:{line}: documentation example does not tokenise: {e}", doc, line)
+                continue
+            kind, st, i = toksim.simulate(goto, act, [t[0] for t in toks])
+            if kind != "accept":
+                at = toks[i] if i < len(toks) else ("end of input", "", 0, 0)
+                res.add(key + "|parse", f"{doc}:{line}: the example starting `{core[0].strip()[:50]}` is published as Emboss but the shipped parser "
+                        f"rejects it at `{at[1]}` ({at[0]}, line {at[2]} of the block)", doc, line)
+    if res.instances < 10:
+        raise AnalysisError(f"only {res.instances} module examples found in the user documentation")
+    res.analysed = list(docs)
+    return res
